@@ -924,6 +924,23 @@ pub fn gen_history(p: &KProf, rng: &mut Rng) -> (usize, Vec<KOp>) {
             }
         }
     }
+    if p.immortal > 0 && rng.chance(1, 2) {
+        // the clock reaches E::max_expiration() itself: nothing is live any more, immortal entries included
+        t = i32::MAX;
+        for _ in 0..6 {
+            let k = rng.range(0, 2 * p.u as i64) as i32;
+            ops.push(match rng.below(5) {
+                0 => KOp::Get { t, k },
+                1 => KOp::Fl { t, k },
+                2 => KOp::Fle { t, k },
+                3 => KOp::Fleb { t, k, mode: rng.below(3) as u8 },
+                _ => KOp::Ins { k: 2 * rng.below(p.u as u64) as i32 + 1, exp: i32::MAX, t },
+            });
+        }
+        for e in exp.iter_mut() {
+            *e = i32::MIN;
+        }
+    }
     if p.export_end {
         // below all / equal to some / between / above all expirations
         let live: Vec<i32> = exp.iter().copied().filter(|&e| e > t).collect();
